@@ -1,3 +1,4 @@
+import WS.Lemmas.AuditGaps
 import WS.Lemmas.HdrLogic
 import WS.Lemmas.ReaderRejects
 import WS.Gen.Skeletons
@@ -109,6 +110,31 @@ theorem nextReader_violation_reachable (c : Conn) (hc : ReaderIdle c) (hi : Coun
       c'.w.wire = c.w.wire ++ closeFrameBytes c.w ((closePayload 1002 (strBytes msg)).take 125) ∧
       c'.w.writeErr = some .closeSent := by
   first | exact ReaderMore.nextReader_violation_reach .. | (apply ReaderMore.nextReader_violation_reach <;> assumption)
+
+open WS.Codec WS.ReaderDecodes WS.RoleGeneric WS.AuditGaps in
+/-- close frames: a status code a peer may not send is a protocol violation — handler not run, protocol error,
+    1002 close frame written (either role) -/
+theorem bad_close_code_rejected (c : Conn) (hc : AtBoundary c) (hw : WHealthy c.w)
+    (key : Key) (code : Nat) (reason rest : Bytes)
+    (hcode : isValidReceivedCloseCode code = false) (hc16 : code < 65536) (hl : reason.length ≤ 123)
+    (hp : c.r.buf.pending = PFrame.enc c.r.isServer ⟨8, true, key, beBytes 2 code ++ reason⟩ ++ rest) :
+    ∃ msg c', advanceFrame c = (.error (.protocol msg), c') ∧ c'.r.hlog = c.r.hlog ∧
+      c'.w.wire = c.w.wire ++ closeFrameBytes c.w ((closePayload 1002 (strBytes msg)).take 125) ∧
+      c'.w.writeErr = some .closeSent := by
+  first | exact AuditGaps.bad_close_code_rejected .. | (apply AuditGaps.bad_close_code_rejected <;> assumption)
+
+open WS.Codec WS.ReaderDecodes WS.RoleGeneric WS.AuditGaps in
+/-- close frames: a reason that is not UTF-8 likewise -/
+theorem bad_close_utf8_rejected (c : Conn) (hc : AtBoundary c) (hw : WHealthy c.w)
+    (key : Key) (code : Nat) (reason rest : Bytes)
+    (hcode : isValidReceivedCloseCode code = true) (hc16 : code < 65536) (hutf : Spec.validUtf8 reason = false)
+    (hl : reason.length ≤ 123)
+    (hp : c.r.buf.pending = PFrame.enc c.r.isServer ⟨8, true, key, beBytes 2 code ++ reason⟩ ++ rest) :
+    ∃ msg c', advanceFrame c = (.error (.protocol msg), c') ∧ c'.r.hlog = c.r.hlog ∧
+      c'.w.wire = c.w.wire ++ closeFrameBytes c.w ((closePayload 1002 (strBytes msg)).take 125) ∧
+      c'.w.writeErr = some .closeSent := by
+  first | exact AuditGaps.bad_close_utf8_rejected .. | (apply AuditGaps.bad_close_utf8_rejected <;> assumption)
+
 
 /-! ### non-vacuity -/
 section NonVacuity
